@@ -7,7 +7,7 @@ import re
 from . import core
 
 NAMES = ["a", "b", "c", "col1", "t1", "t2", "x", "y", "amount", "user_id", "`order`", "`a b`", "B", "X", "名字"]
-TABLES = ["t", "t1", "t2", "orders", "db.users", "`s`.`u`", "`s.v`", "x"]
+TABLES = ["t", "t1", "t2", "orders", "db.users", "`s`.`u`", "`s.v`", "x", "`ods.order.detail`"]
 FUNCS = ["f", "concat", "coalesce", "nvl", "lower", "db.udf", "substring"]
 AGGS = ["count", "SUM", "min", "Max", "avg"]
 LITS = ["1", "0", "42", "3.14", "'s'", "'it''s'", "\"d\"", "NULL", "true", "FALSE", "x'1F'", "b'01'", "''", "'a b'", "007"]
